@@ -220,3 +220,246 @@ Proof. intros V L N A E E3 G Lx Hc. pose proof (proj_length rt c n w r V L E) as
   - rewrite layer_bounds_length; congruence.
   - congruence.
   - unfold lin_unit. split; lra. Qed.
+
+(* a guard on the RAW weights for configurations without dominances: one
+   weight of at least eps is enough (the sign clip keeps it) *)
+Lemma qsum_abs_ge_nth l i : (i < length l)%nat -> qabs (nth i l 0) <= qsum (map qabs l).
+Proof. revert i. induction l as [|q l IH]; intros [|i] H; cbn in H; try lia; cbn [map qsum nth].
+  - assert (0 <= qsum (map qabs l)) by (apply qsum_map_nonneg; intros; qcases; lra). lra.
+  - pose proof (IH i ltac:(lia)). assert (0 <= qabs q) by (qcases; lra). lra. Qed.
+
+Theorem projected_weighted_average_plain rt c n w r b x lo hi i :
+  lin_valid c n -> length w = n -> lc_norm c = 1%nat -> all_increasing c n ->
+  lc_mdom c = [] -> lc_rdom c = [] -> (i < n)%nat -> norm_eps <= nth i w 0 ->
+  lin_project_col rt c w = Some r -> length x = n ->
+  (forall v, In v (clipped (layer_bounds c n) x) -> lo <= v /\ v <= hi) ->
+  (forall q, In q r -> 0 <= q) /\ qsum r == 1 /\
+  lo <= lin_unit r b (layer_bounds c n) x - b /\ lin_unit r b (layer_bounds c n) x - b <= hi.
+Proof. intros V L N A Em Er Hi Hw E Lx Hc.
+  assert (E3 : lin_project_col rt (with_norm c 0) w = Some (sign_clip (lc_monos c) w)).
+  { rewrite lin_pre_norm0. unfold lin_pre, stage_po, stage_range. rewrite Em, Er. reflexivity. }
+  apply (projected_weighted_average rt c n w (sign_clip (lc_monos c) w) r b x lo hi); try assumption.
+  pose proof (lv_monos_len c n V) as Lm.
+  pose proof (qsum_abs_ge_nth (sign_clip (lc_monos c) w) i) as H. rewrite sign_clip_length in H.
+  specialize (H ltac:(lia)). rewrite sign_clip_nth in H by lia.
+  pose proof (A i Hi) as Mi. unfold mono in Mi. rewrite Mi in H. unfold sclip in H. cbn [Z.eqb Pos.eqb] in H.
+  unfold norm_eps in *. revert H. qcases; intros; lra. Qed.
+
+(* ---------- the zero column (known finding D32): without the guard the
+   statement is false.  All-increasing layer, normalization order 1, raw weights
+   all negative (one hostile gradient step): the sign clip gives the zero
+   column, the normalization leaves it as it is, the output is 0 for the input
+   (1, 2), which is not between 1 and 2. ---------- *)
+Definition zero_cfg : lin_cfg := mkLin [1; 1]%Z [] [] [] [] 1.
+Lemma zero_cfg_valid : lin_valid zero_cfg 2.
+Proof. constructor; cbn; try reflexivity; try congruence.
+  - intros i. unfold mono. cbn. destruct i as [|[|[|i]]]; auto.
+  - intros d k [].
+  - intros d k [].
+  - intros i [x [[]|[]]].
+  - apply (acyclic_rank _ (fun x => x)). intros a b [].
+  - apply (acyclic_rank _ (fun x => x)). intros a b []. Qed.
+Lemma zero_cfg_increasing : all_increasing zero_cfg 2.
+Proof. intros i Hi. unfold mono. cbn. destruct i as [|[|i]]; [reflexivity|reflexivity|lia]. Qed.
+
+Theorem weighted_average_zero_refuted :
+  exists rt c n w r x lo hi,
+    lin_valid c n /\ length w = n /\ lc_norm c = 1%nat /\ all_increasing c n /\
+    lin_project_col rt c w = Some r /\ length x = n /\
+    (forall v, In v (clipped (layer_bounds c n) x) -> lo <= v /\ v <= hi) /\
+    ~ (lo <= lin_unit r 0 (layer_bounds c n) x).
+Proof. exists qsqrt, zero_cfg, 2%nat, [-(1); -(2)], [0; 0], [1; 2], 1, 2.
+  split; [exact zero_cfg_valid|]. split; [reflexivity|]. split; [reflexivity|]. split; [exact zero_cfg_increasing|].
+  split; [vm_compute; reflexivity|]. split; [reflexivity|]. split.
+  - intros v H. cbn in H. destruct H as [<-|[<-|[]]]; vm_compute; split; discriminate.
+  - vm_compute. intros H. apply H. reflexivity. Qed.
+
+(* ================= (5) input forms, bias ================= *)
+Lemma dot_clip_lin_sum : forall k bs x, dot (clip_row bs x) k == lin_sum k bs x.
+Proof. unfold dot, clip_row. induction k as [|kq k IH]; intros [|[lo hi] bs] [|xq x]; cbn [map2 qsum lin_sum fst snd]; try reflexivity.
+  rewrite IH. lra. Qed.
+
+Definition bias_of (bias : option (list Q)) (u : nat) : Q := match bias with Some b => nth u b 0 | None => 0 end.
+Definition row_of (inp : lin_input) (u : nat) : list Q := match inp with In1 x => x | InN xs => nth u xs [] end.
+
+(* Linear.call, both branches: whenever it is defined, the result has one
+   entry per unit and entry u is the clipped affine function of column u *)
+Theorem linear_call_spec units K bias bs inp out : linear_call units K bias bs inp = Some out ->
+  length out = units /\
+  forall u, (u < units)%nat -> nth u out 0 == lin_unit (column u K) (bias_of bias u) bs (row_of inp u).
+Proof. unfold linear_call. destruct inp as [x|xs]; destruct (Nat.eqb_spec units 1) as [->|Hne]; intros E; inversion E; subst out; clear E.
+  - split; [reflexivity|]. intros u Hu. assert (u = 0%nat) by lia. subst u. cbn [nth row_of]. unfold lin_unit.
+    rewrite <- dot_clip_lin_sum. destruct bias; cbn [bias_of]; lra.
+  - split; [rewrite map_length, seq_length; reflexivity|]. intros u Hu.
+    rewrite (nth_map_seq (fun u => match bias with Some b => dot (clip_row bs (nth u xs [])) (nth u (transpose units K) []) + nth u b 0
+                                   | None => dot (clip_row bs (nth u xs [])) (nth u (transpose units K) []) end) units u 0 Hu).
+    unfold transpose. rewrite (nth_map_seq (fun u => column u K) units u [] Hu). cbn [row_of]. unfold lin_unit.
+    rewrite <- dot_clip_lin_sum. destruct bias; cbn [bias_of]; lra. Qed.
+
+Lemma linear_call_defined units K bias bs inp :
+  linear_call units K bias bs inp <> None <-> (match inp with In1 _ => units = 1%nat | InN _ => units <> 1%nat end).
+Proof. unfold linear_call. destruct inp; destruct (Nat.eqb_spec units 1); split; intros; try congruence; try discriminate. Qed.
+
+(* the model of C20_formula and the two-branch model agree *)
+Theorem linear_call_eval units K bias bs inp out : linear_call units K bias bs inp = Some out ->
+  peq out (linear_eval units K (match bias with Some b => b | None => [] end) bs
+             (match inp with In1 x => [x] | InN xs => xs end)).
+Proof. intros E. destruct (linear_call_spec units K bias bs inp out E) as [L H]. split.
+  - unfold linear_eval. rewrite map_length, seq_length. exact L.
+  - intros u. destruct (Nat.lt_ge_cases u units) as [Hu|Hu].
+    + rewrite (H u Hu). rewrite linear_eval_unit by exact Hu.
+      assert (Eb : bias_of bias u = nth u (match bias with Some b => b | None => [] end) 0)
+        by (destruct bias; cbn; [reflexivity|destruct u; reflexivity]).
+      assert (Er : row_of inp u = nth u (match inp with In1 x => [x] | InN xs => xs end) []).
+      { destruct inp as [x|xs]; cbn [row_of]; [|reflexivity]. unfold linear_call in E.
+        destruct (Nat.eqb_spec units 1) as [->|]; [|discriminate]. assert (u = 0%nat) by lia. subst u. reflexivity. }
+      rewrite Eb, Er. reflexivity.
+    + rewrite !nth_overflow; [reflexivity| |lia]. unfold linear_eval. rewrite map_length, seq_length. exact Hu. Qed.
+
+Definition oqeq (a b : option (list Q)) : Prop :=
+  match a, b with Some x, Some y => peq x y | None, None => True | _, _ => False end.
+
+(* use_bias = False is the layer with a zero bias *)
+Theorem linear_call_no_bias units K bs inp zs : (forall u, nth u zs 0 == 0) ->
+  oqeq (linear_call units K None bs inp) (linear_call units K (Some zs) bs inp).
+Proof. intros Hz. destruct (linear_call units K None bs inp) as [a|] eqn:Ea; destruct (linear_call units K (Some zs) bs inp) as [b|] eqn:Eb; cbn.
+  - destruct (linear_call_spec _ _ _ _ _ _ Ea) as [La Ha]. destruct (linear_call_spec _ _ _ _ _ _ Eb) as [Lb Hb].
+    split; [congruence|]. intros u. destruct (Nat.lt_ge_cases u units) as [Hu|Hu].
+    + rewrite (Ha u Hu), (Hb u Hu). unfold lin_unit. cbn [bias_of]. rewrite (Hz u). reflexivity.
+    + rewrite !nth_overflow by lia. reflexivity.
+  - exfalso. revert Ea Eb. unfold linear_call. destruct inp; destruct (units =? 1)%nat; discriminate.
+  - exfalso. revert Ea Eb. unfold linear_call. destruct inp; destruct (units =? 1)%nat; discriminate.
+  - exact I. Qed.
+
+(* unit u of a layer with units > 1 (rows per unit, reduce_sum branch) is the
+   layer with units = 1 (matmul branch) whose kernel is column u and whose bias
+   is bias_u, applied to unit u's row *)
+Definition col_matrix (k : list Q) : list (list Q) := map (fun q => [q]) k.
+Lemma column_col_matrix k : column 0 (col_matrix k) = k.
+Proof. unfold column, col_matrix. rewrite map_map. cbn. apply map_id. Qed.
+
+Theorem linear_call_unit_forms units K bias bs xs out u : (u < units)%nat ->
+  linear_call units K bias bs (InN xs) = Some out ->
+  exists v, linear_call 1 (col_matrix (column u K)) (option_map (fun b => [nth u b 0]) bias) bs (In1 (nth u xs [])) = Some [v] /\
+            nth u out 0 == v.
+Proof. intros Hu E. destruct (linear_call_spec _ _ _ _ _ _ E) as [_ H].
+  destruct (linear_call 1 (col_matrix (column u K)) (option_map (fun b => [nth u b 0]) bias) bs (In1 (nth u xs []))) as [o|] eqn:E1.
+  - destruct (linear_call_spec _ _ _ _ _ _ E1) as [L1 H1]. destruct o as [|v [|? ?]]; cbn in L1; try lia.
+    exists v. split; [reflexivity|]. rewrite (H u Hu). specialize (H1 0%nat ltac:(lia)). cbn [nth] in H1. rewrite H1.
+    rewrite column_col_matrix. cbn [row_of]. destruct bias; cbn [bias_of option_map nth]; reflexivity.
+  - discriminate. Qed.
+
+(* ================= the whole layer after its constraint ================= *)
+(* every unit of the constrained layer is the clipped affine function of the
+   PROJECTED column of that unit, clipped by the configuration's own bounds:
+   the link that carries the column theorems above to every unit *)
+Theorem projected_layer rt c units W bias inp out u :
+  lin_valid c (length W) -> linear_constrained rt c units W bias inp = Some out -> (u < units)%nat ->
+  exists r, lin_project_col rt c (column u W) = Some r /\
+    nth u out 0 == lin_unit r (bias_of bias u) (layer_bounds c (length W)) (row_of inp u).
+Proof. intros V E Hu. unfold linear_constrained in E. destruct (lin_project rt c units W) as [R|] eqn:ER; [|discriminate].
+  destruct (lin_per_unit rt c units W R u V ER Hu) as [r [Er Ec]]. exists r. split; [exact Er|].
+  destruct (linear_call_spec _ _ _ _ _ _ E) as [_ H]. rewrite (H u Hu), Ec. reflexivity. Qed.
+
+(* and the constrained layer is defined for every kernel whenever the input form fits *)
+Theorem projected_layer_defined rt c units W bias inp : lin_valid c (length W) ->
+  (match inp with In1 _ => units = 1%nat | InN _ => units <> 1%nat end) ->
+  exists out, linear_constrained rt c units W bias inp = Some out.
+Proof. intros V F. unfold linear_constrained. destruct (lin_matrix_defined rt c units W V) as [R ->].
+  destruct (linear_call units R bias (layer_bounds c (length W)) inp) as [o|] eqn:E; [exists o; reflexivity|].
+  exfalso. apply (proj2 (linear_call_defined units R bias (layer_bounds c (length W)) inp) F). exact E. Qed.
+
+(* end to end, monotonicity of unit u of the constrained layer in the batch-row form *)
+Theorem projected_layer_monotone rt c units W bias inp inp' out out' u :
+  lin_valid c (length W) -> (u < units)%nat ->
+  linear_constrained rt c units W bias inp = Some out -> linear_constrained rt c units W bias inp' = Some out' ->
+  length (row_of inp u) = length W -> length (row_of inp' u) = length W -> dir_le c (row_of inp u) (row_of inp' u) ->
+  nth u out 0 <= nth u out' 0.
+Proof. intros V Hu E E' Lx Ly D.
+  destruct (projected_layer rt c units W bias inp out u V E Hu) as [r [Er H]].
+  destruct (projected_layer rt c units W bias inp' out' u V E' Hu) as [r' [Er' H']].
+  rewrite Er in Er'. inversion Er'; subst r'. rewrite H, H'.
+  apply (projected_monotone rt c (length W) (column u W) r); try assumption. apply column_length. Qed.
+
+(* ================= examples: the hypotheses are satisfiable ================= *)
+(* ex_cfg (Proofs/LinearProject.v): inputs 0..3 increasing with a monotonic
+   dominance diamond, inputs 4, 5 decreasing, bounded, range dominance (4 over 5),
+   input 6 free; ex_w projects to ex_r (ex_run). *)
+Example ex_r : list Q := [17 # 124; 17 # 124; 4 # 31; 4 # 31; -3 # 62; -3 # 31; 10 # 31].
+Example ex_x : list Q := [0; 1; -2; 3; 1; -(1#2); 7].
+Example ex_y : list Q := [1; 1; 5; 3; 0; -3; 7].
+Example ex_dir_le : dir_le ex_cfg ex_x ex_y.
+Proof. intros i. unfold mono. do 7 (destruct i as [|i]; [cbn; repeat split; intros; try discriminate; lra|]).
+  destruct i; cbn; repeat split; intros; try discriminate; lra. Qed.
+Example ex_monotone_applies : lin_unit ex_r 5 (layer_bounds ex_cfg 7) ex_x <= lin_unit ex_r 5 (layer_bounds ex_cfg 7) ex_y.
+Proof. apply (projected_monotone qsqrt ex_cfg 7 ex_w ex_r 5 ex_x ex_y ex_cfg_valid eq_refl ex_run eq_refl eq_refl ex_dir_le). Qed.
+Example ex_monotone_coordinate_applies :
+  lin_unit ex_r 5 (layer_bounds ex_cfg 7) (set_nth 5 2 ex_x) <= lin_unit ex_r 5 (layer_bounds ex_cfg 7) (set_nth 5 (-(2)) ex_x).
+Proof. apply (projected_monotone_coordinate qsqrt ex_cfg 7 ex_w ex_r 5 ex_x 5 (-(2)) 2 ex_cfg_valid eq_refl ex_run eq_refl); [lia|lra|reflexivity]. Qed.
+Example ex_mdom_applies :
+  lin_unit ex_r 5 (layer_bounds ex_cfg 7) (set_nth 1 (nth 1 ex_x 0 + 3) ex_x) - lin_unit ex_r 5 (layer_bounds ex_cfg 7) ex_x <=
+  lin_unit ex_r 5 (layer_bounds ex_cfg 7) (set_nth 0 (nth 0 ex_x 0 + 3) ex_x) - lin_unit ex_r 5 (layer_bounds ex_cfg 7) ex_x.
+Proof. apply (projected_mdom_effect qsqrt ex_cfg 7 ex_w ex_r 5 ex_x 0 1 3 ex_cfg_valid eq_refl ex_run eq_refl).
+  - cbn. auto.
+  - lra.
+  - vm_compute. reflexivity.
+  - vm_compute. reflexivity. Qed.
+Example ex_rdom_applies : exists ld hd lw hw,
+  nth 4 (layer_bounds ex_cfg 7) nob = (Some ld, Some hd) /\ nth 5 (layer_bounds ex_cfg 7) nob = (Some lw, Some hw) /\
+  lin_unit ex_r 5 (layer_bounds ex_cfg 7) (set_nth 5 lw ex_x) - lin_unit ex_r 5 (layer_bounds ex_cfg 7) (set_nth 5 hw ex_x) <=
+  lin_unit ex_r 5 (layer_bounds ex_cfg 7) (set_nth 4 ld ex_x) - lin_unit ex_r 5 (layer_bounds ex_cfg 7) (set_nth 4 hd ex_x).
+Proof. destruct (projected_rdom_effect qsqrt ex_cfg 7 ex_w ex_r 5 ex_x 4 5 ex_cfg_valid eq_refl ex_run eq_refl)
+    as [ld [hd [lw [hw [A [B [_ [_ [_ [D _]]]]]]]]]]. cbn; auto.
+  exists ld, hd, lw, hw. split; [exact A|]. split; [exact B|]. apply D. reflexivity. Qed.
+
+(* an all-increasing configuration with both kinds of dominance and order-1
+   normalization, for the weighted average *)
+Example avg_cfg : lin_cfg := mkLin [1; 1; 1; 1]%Z [(0, 1)]%nat [(2, 3)]%nat
+  [None; Some (-(1)); Some 0; Some 0] [None; None; Some 2; Some 1] 1.
+Example avg_cfg_valid : lin_valid avg_cfg 4.
+Proof. constructor.
+  - reflexivity.
+  - intros i. unfold mono. cbn. do 4 (destruct i as [|i]; [auto|]). destruct i; auto.
+  - reflexivity.
+  - reflexivity.
+  - intros d k H. in_cases H; cbn; repeat split; lia.
+  - intros d k H. in_cases H. cbn. repeat split; try lia; try discriminate.
+    + exists 0, 2. repeat split; lra.
+    + exists 0, 1. repeat split; lra.
+  - intros i [x [H|H]] [y [H'|H']]; in_cases H; in_cases H'.
+  - apply (acyclic_rank _ (fun x => 10 - x)%nat). intros a b H. in_cases H; lia.
+  - apply (acyclic_rank _ (fun x => 10 - x)%nat). intros a b H. in_cases H; lia. Qed.
+Example avg_cfg_increasing : all_increasing avg_cfg 4.
+Proof. intros i Hi. unfold mono. cbn. do 4 (destruct i as [|i]; [reflexivity|]). lia. Qed.
+Example avg_w : list Q := [1; 3; -(2); 4].
+Example avg_x : list Q := [3; -(5); 1; 7].
+Example avg_weighted_average_applies : exists r w3,
+  lin_project_col qsqrt avg_cfg avg_w = Some r /\ lin_project_col qsqrt (with_norm avg_cfg 0) avg_w = Some w3 /\
+  norm_eps <= qsum (map qabs w3) /\ qsum r == 1 /\
+  -(1) <= lin_unit r 0 (layer_bounds avg_cfg 4) avg_x - 0 /\ lin_unit r 0 (layer_bounds avg_cfg 4) avg_x - 0 <= 3.
+Proof. destruct (lin_defined qsqrt avg_cfg 4 avg_w avg_cfg_valid eq_refl) as [r [E _]].
+  destruct (lin_defined qsqrt (with_norm avg_cfg 0) 4 avg_w (lin_valid_with_norm _ _ 0%nat avg_cfg_valid) eq_refl) as [w3 [E3 _]].
+  exists r, w3. split; [exact E|]. split; [exact E3|].
+  assert (G : norm_eps <= qsum (map qabs w3)).
+  { revert E3. vm_compute. intros E3. inversion E3; subst w3. vm_compute. discriminate. }
+  split; [exact G|].
+  destruct (projected_weighted_average qsqrt avg_cfg 4 avg_w w3 r 0 avg_x (-(1)) 3 avg_cfg_valid eq_refl eq_refl
+              avg_cfg_increasing E E3 G eq_refl) as [_ [S [A B]]].
+  - intros v H. cbn in H. repeat (destruct H as [<-|H]; [vm_compute; split; discriminate|]). destruct H.
+  - split; [exact S|]. split; [exact A|exact B]. Qed.
+
+(* the degenerate branch is reachable too (all raw weights negative) *)
+Example avg_degenerate_applies : exists r w3,
+  lin_project_col qsqrt avg_cfg [-(1); -(3); -(2); -(4)] = Some r /\
+  lin_project_col qsqrt (with_norm avg_cfg 0) [-(1); -(3); -(2); -(4)] = Some w3 /\ qsum (map qabs w3) < norm_eps.
+Proof. eexists. eexists. split; [vm_compute; reflexivity|]. split; [vm_compute; reflexivity|]. vm_compute. reflexivity. Qed.
+
+(* a two-unit constrained layer on both input forms *)
+Example ex_layer_defined : exists out,
+  linear_constrained qsqrt ex_cfg 2 (map (fun x => [x; - x]) ex_w) (Some [1; 2]) (InN [ex_x; ex_y]) = Some out.
+Proof. apply projected_layer_defined. apply ex_cfg_valid. discriminate. Qed.
+Example ex_layer1_defined : exists out,
+  linear_constrained qsqrt avg_cfg 1 (map (fun x => [x]) avg_w) None (In1 avg_x) = Some out.
+Proof. apply projected_layer_defined. apply avg_cfg_valid. reflexivity. Qed.
+Example ex_plain_guard : exists i, (i < 2)%nat /\ norm_eps <= nth i [-(1); 1 # 2] 0.
+Proof. exists 1%nat. split; [lia|]. vm_compute. discriminate. Qed.
